@@ -3,11 +3,15 @@ import json, os, re, subprocess, sys, time, hashlib, shutil
 
 ROOT = os.path.dirname(os.path.abspath(__file__))
 SPEC = os.path.join(ROOT, "spec")
-WORK = os.path.join(ROOT, "work")
-HARNESS = os.path.join(ROOT, "harness")
+# development only (never set by the registered commands): run the same checks against a scratch copy of the harness that
+# depends on a scratch worktree of the crate, with all outputs outside /verif, so that seeded changes can be tried while
+# other checks run against /repo (tools/try_mutant_dev.sh)
+_DEV_OUT = os.environ.get("VERIF_DEV_OUT")
+WORK = os.path.join(_DEV_OUT or ROOT, "work")
+HARNESS = os.environ.get("VERIF_DEV_HARNESS") or os.path.join(ROOT, "harness")
 VH = os.path.join(HARNESS, "target", "release", "vh")
-EVID = os.path.join(ROOT, "evidence")
-REPLAYS = os.path.join(ROOT, "replays")
+EVID = os.path.join(_DEV_OUT or ROOT, "evidence")
+REPLAYS = os.path.join(_DEV_OUT or ROOT, "replays")
 JAVA_TV = "-Xss1g -Xmx3g -Dtlc2.tool.queue.IStateQueue=StateDeque"
 
 
